@@ -486,8 +486,15 @@ impl Worker {
     }
 
     fn stop(&self) {
-        // Send a `None` poison pill value to stop the run loop.
-        let _ = self.sender.try_send(None);
+        // Send a `None` poison pill value to stop the run loop. If the queue is
+        // currently full, hand the poison pill to a short-lived thread that can
+        // wait for room so that it is never lost and the caller never blocks.
+        if let Err(TrySendError::Full(pill)) = self.sender.try_send(None) {
+            let sender = self.sender.clone();
+            let _ = thread::Builder::new().spawn(move || {
+                let _ = sender.send(pill);
+            });
+        }
     }
 
     // Stop reading events from the channel and wait for the "stopped" flag
